@@ -17,6 +17,30 @@ CHECKS = {
         note="Bound: <=2 binary operators x 10 contexts and <=3 in assignments (quick); <=3 x 10 contexts and 4 in assignments with two prefixed operands (thorough); one parenthesis level; literals |s|<=7/9. ^, integer division and built-ins shared by both dialects are uninterpreted (same symbol both sides); float rounding, overflow and zero-trip FOR loops are outside. Trusted: the two reference parsers in vf/tv (Color BASIC ROM precedence table, BASIC09 manual precedence), z3.",
         design="DESIGN.md §3 E3/E2/E5, §5 C01",
     ),
+    "C04": dict(
+        engine="tv+symproxy",
+        category=TV,
+        technique="translation validation with SMT (z3): arguments of every emitted RUN bound to the real ecb.b09 param lists and compared per parameter name with a reference map over symbolic operands; BasicPoke executed on a symbolic address",
+        text="Every device statement form x optional-operand pattern x operand shape is converted by the real tool; the BASIC09 machine executes the output, binds each RUN's arguments by position to the parameter names parsed from the real ecb.b09 and z3 decides, for all operand values, equality with the operand (or documented default) the reference map assigns to that parameter name. The two speed-poke addresses are decided for every literal address by running the real BasicPoke code on a symbolic integer; the HBUFF prologue is checked in both directions.",
+        note="Bound: one device statement per program (plus the same statement followed by other text / inside IF arms), operand shapes listed in the evidence. The reference map (vf/tv/refmap.py) is trusted data written from the Color BASIC manuals; what the procedures do with their operands is outside. Trusted: z3, the BASIC09 reader.",
+        design="DESIGN.md §5 C04",
+    ),
+    "C07": dict(
+        engine="tv+rxsmt",
+        category=TV,
+        technique="independent BASIC09 reader over real convert() output (structural, per program) + SMT (z3 regex/string queries over the real grammar regexes) for content closure and reserved identifiers",
+        text="Every output of the statement-coverage, device, expression-in-context, IF-arm and PRINT-list families and of the 21 bundled examples, under three option sets, must load in an independent reader of BASIC09's statement grammar (complete statements, balanced blocks, all operands present). z3 decides for every content string of the real str_literal / partial_str_lit / data_str_literal / comment_text regexes that the emitted line stays one closed physical line, and for every name the real var regex accepts that its two-character identifier is not a reserved word.",
+        note="The structural part is decided per program without a solver (stated in the evidence); the solver part bounds contents to 6 and names to 4 characters. BASIC09 grammar subset = what the tool emits; reserved-word list deliberately short (DO ON PI + statement keywords). Type correctness of mixed boolean/numeric expressions is outside (by the property).",
+        design="DESIGN.md §5 C07",
+    ),
+    "C14": dict(
+        engine="tv",
+        category=TV,
+        technique="linking against the real ecb.b09 param lists; the type class of each argument expression is decided by z3 (typing rules and declarations as constraints over an enumeration sort); record layouts compared field for field",
+        text="Every RUN statement in the real convert() output of the device / statement / IF-arm families (prologue included) and every RUN between library procedures is bound to the callee's param list parsed from the real ecb.b09: argument count must match and z3 must find the argument expression typable with the parameter's class (string / numeric / boolean / record type). The prologue's display_t and play_t are compared field for field with every library declaration.",
+        note="This is a linking decision supported by a solver (type inference as constraint solving), not a deep semantic proof; REAL vs INTEGER width is not distinguished. Families bound which call shapes are seen.",
+        design="DESIGN.md §5 C14",
+    ),
     "C09": dict(
         engine="rxsmt+symproxy",
         category=OT,
